@@ -1,4 +1,271 @@
-/- C11 — placeholder while the check is being built (replaced below). -/
-import Octave.Model.Repair
+/-
+C11 — Schema repair changes only what it may, and logs every change.
+
+Property theorems over the executable model `Model/Repair` (tied to repair.py by the correspondence
+of tools/props/c11.py) and over the regenerated tables `Gen/Repair`, `Gen/Tools`.
+Helper lemmas: `Lemmas/Repair`.  What a repair *may* do: `Spec/RepairSpec` (`Step`, `Steps`, `Explained`).
+Documents are trees of Assignment / Block / Section nodes of any depth and width; values include
+lists, inline maps and literal zones; schemas are arbitrary.
+-/
+import Octave.Lemmas.Repair
+import Octave.Spec.AsciiEnv
+import Octave.Model.Tools
+import Octave.Gen.Repair
 namespace Octave.C11
+open Octave Repair Spec Lemmas
+
+/-! ## fix off -/
+
+/-- With fix off (or without a schema) the document is returned unchanged and nothing is logged. -/
+theorem C11_off (env : Env) (d : Doc) (sch : Option Schema) : repair env d false sch = (d, []) := by
+  cases sch <;> rfl
+
+theorem C11_off_noschema (env : Env) (d : Doc) (fix : Bool) : repair env d fix none = (d, []) := by
+  cases fix <;> rfl
+
+/-- `repair_value(…, fix=False)` never changes a value. -/
+theorem C11_off_value (env : Env) (v : Val) (fd : Option FieldDef) : repairValue env v fd false = (v, []) := by
+  simp [repairValue]
+
+/-! ## structure -/
+
+/-- Keys, nesting, order, block targets, section ids: unchanged (`skeleton` erases values only). -/
+theorem C11_skeleton (env : Env) (d : Doc) (fix : Bool) (sch : Option Schema) :
+    (repair env d fix sch).1.skeleton = d.skeleton := by
+  cases fix <;> cases sch <;> simp [repair, Doc.skeleton, skel_nodes]
+
+/-- Nothing outside the section tree is touched: envelope name, META, frontmatter, separator, version. -/
+theorem C11_envelope (env : Env) (d : Doc) (fix : Bool) (sch : Option Schema) :
+    { (repair env d fix sch).1 with sections := d.sections } = d := by
+  cases fix <;> cases sch <;> simp [repair]
+
+/-! ## changes and log -/
+
+/-- Leaf by leaf in traversal order: same keys; every value is reached from the old one by permitted
+changes only (`Step`: ENUM case repair to the single case-insensitive match, or NUMBER coercion of a
+text whose numeral denotes the new finite number); and the log is *exactly* the concatenation of the
+entries of those changes, each with tier REPAIR, `before` = the old text, `after` = `str(new)`. -/
+theorem C11_log (env : Env) (d : Doc) (sch : Schema) :
+    Explained env sch d.leaves (repair env d true (some sch)).1.leaves (repair env d true (some sch)).2 := by
+  simp only [repair, Doc.leaves]
+  exact explained_nodes env sch d.sections
+
+/-- Every logged entry has tier REPAIR and one of the two rule ids. -/
+theorem C11_log_tier {env : Env} {sch : Schema} {ls ls' : List (Str × Val)} {log : List Entry}
+    (h : Explained env sch ls ls' log) :
+    ∀ e ∈ log, e.tier = .repair ∧ (e.ruleId = "ENUM_CASEFOLD" ∨ e.ruleId = "TYPE_COERCION") := by
+  induction h with
+  | nil => intro e he; cases he
+  | cons hs _ ih =>
+    intro e he
+    rcases List.mem_append.mp he with h1 | h2
+    · clear ih he
+      induction hs with
+      | nil => cases h1
+      | cons hstep _ ih2 =>
+        rcases List.mem_cons.mp h1 with rfl | h1'
+        · cases hstep <;> exact ⟨rfl, by simp⟩
+        · exact ih2 h1'
+    · exact ih e h2
+
+/-- A value without log entries is unchanged (so: every change is logged). -/
+theorem C11_unlogged_unchanged {env : Env} {chain : List Constraint} {v w : Val}
+    (h : Steps env chain v w []) : w = v := steps_nil_eq h
+
+/-- Every changed value: keys aligned, and a changed value has a non-empty chain of permitted steps. -/
+theorem C11_changes {env : Env} {sch : Schema} {ls ls' : List (Str × Val)} {log : List Entry}
+    (h : Explained env sch ls ls' log) :
+    Forall2 (fun a b => b.1 = a.1 ∧ (b.2 = a.2 ∨ ∃ es, es ≠ [] ∧ Steps env (chainOf sch a.1) a.2 b.2 es)) ls ls' := by
+  induction h with
+  | nil => exact Forall2.nil
+  | @cons k v v' es log ls ls' hs _ ih =>
+    refine Forall2.cons ⟨rfl, ?_⟩ ih
+    cases es with
+    | nil => exact Or.inl (steps_nil_eq hs)
+    | cons e es => exact Or.inr ⟨e :: es, by simp, hs⟩
+
+/-! ## the new value satisfies the motivating constraint -/
+
+theorem C11_satisfies {env : Env} (ce : CEnv) {chain : List Constraint} {c : Constraint} {v w : Val} {e : Entry}
+    (h : Step env chain c v w e) : c ∈ chain ∧ c.eval ce w.toPy = none := by
+  cases h with
+  | casefold allowed s canonical hc _ hmem _ _ =>
+    refine ⟨hc, ?_⟩
+    simp [Constraint.eval, Constraint.evalEnum, Constraint.pyStrE, Val.toPy, PyVal.pyStr, PyVal.render, hmem]
+  | coerce s w after hc hd =>
+    refine ⟨hc, ?_⟩
+    cases hd <;> simp [Constraint.eval, Constraint.evalType, Val.toPy, NUMBER]
+
+/-! ## forbidden repairs -/
+
+/-- Only text is ever changed: `None` is never filled, literal zones, lists, maps, numbers, booleans
+and foreign objects pass through untouched and unlogged. -/
+theorem C11_forbidden_nontext {env : Env} {chain : List Constraint} {v w : Val} {es : List Entry}
+    (h : Steps env chain v w es) (hv : ∀ s, v ≠ .str s) : w = v ∧ es = [] := by
+  cases h with
+  | nil => exact ⟨rfl, rfl⟩
+  | cons hstep _ => cases hstep <;> exact absurd rfl (hv _)
+
+theorem C11_forbidden_none {env : Env} {chain : List Constraint} {w : Val} {es : List Entry}
+    (h : Steps env chain .null w es) : w = .null ∧ es = [] :=
+  C11_forbidden_nontext h (by intro s hs; cases hs)
+
+theorem C11_forbidden_zone {env : Env} {chain : List Constraint} {c : Str} {i : Option Str} {f : Str} {w : Val} {es : List Entry}
+    (h : Steps env chain (.zone c i f) w es) : w = .zone c i f ∧ es = [] :=
+  C11_forbidden_nontext h (by intro s hs; cases hs)
+
+/-- No node is added or removed and no block target is set: the skeleton (which records targets) is
+unchanged — `C11_skeleton`.  In particular a missing required field stays missing. -/
+theorem C11_forbidden_absent (env : Env) (d : Doc) (sch : Schema) :
+    ((repair env d true (some sch)).1.leaves.map (·.1)) = d.leaves.map (·.1) := by
+  have h := C11_changes (C11_log env d sch)
+  generalize (repair env d true (some sch)).1.leaves = ls' at h
+  generalize d.leaves = ls at h
+  induction h with
+  | nil => rfl
+  | cons hab _ ih => simp [hab.1, ih]
+
+/-- A text with no case-insensitive match, or with more than one, is never replaced by an ENUM. -/
+theorem C11_forbidden_enum (env : Env) (s : Str) (allowed : List Str)
+    (h : (ciMatches env allowed s).length ≠ 1) : enumCasefold env (.str s) allowed = none := by
+  apply enumCasefold_str_iff.mpr
+  right
+  intro X hX
+  rw [hX] at h
+  exact h rfl
+
+/-- A text that is already one of the allowed values is left alone. -/
+theorem C11_forbidden_exact (env : Env) (s : Str) (allowed : List Str) (h : s ∈ allowed) :
+    enumCasefold env (.str s) allowed = none :=
+  enumCasefold_str_iff.mpr (Or.inl h)
+
+/-- Non-finite results (overflow, `inf`, `nan`) and unparsable text are never coerced. -/
+theorem C11_forbidden_nonfinite (env : Env) (st : Str) (f : PyFloat)
+    (hb : (!st.contains '.' && !(env.lower st).contains 'e') = false)
+    (hf : Numeral.pyFloat env st = some f) (hfin : f.finite = false) : coerceNumber env st = none := by
+  simp only [coerceNumber, hb, Bool.false_eq_true, ↓reduceIte, hf, hfin]
+
+/-! ## idempotence -/
+
+/-- Repairing a repaired document changes nothing and logs nothing — for documents outside the class
+of known finding F40 (`DocNoCycle`: for every text leaf, the ENUM constraints of its chain that have a
+single case-insensitive match agree on it), given that coercibility does not depend on letter case
+(`CaseStable`, an external law of CPython's numeral grammar, checked dynamically by the harness).
+PARTIAL: without `DocNoCycle` the statement is false — `C11_idem_F40` below. -/
+theorem C11_idem_partial {env : Env} (hcs : CaseStable env) (d : Doc) (sch : Schema)
+    (hnc : DocNoCycle env sch d.leaves) :
+    repair env (repair env d true (some sch)).1 true (some sch) = ((repair env d true (some sch)).1, []) := by
+  simp only [repair]
+  rw [idem_nodes hcs sch d.sections hnc]
+
+/-- The value part of idempotence needs no hypothesis on single-ENUM chains… it is covered by
+`C11_idem_partial`; on the F40 witness the *document* is stable but the *log* is not. -/
+def f40Schema : Schema := { name := "W".toList, fields := [
+  ("BOTH".toList, ⟨some ⟨some ⟨[.opt, .enum ["A".toList, "B".toList], .enum ["a".toList, "b".toList]], 0⟩, none⟩⟩)] }
+def f40Doc : Doc := { name := "DOC".toList, sections := [.assign {} "BOTH".toList (.str "A".toList)] }
+
+/-- F40 (negation on the witness): the second repair of the witness logs two more entries. -/
+theorem C11_idem_F40 :
+    (repair asciiEnv (repair asciiEnv f40Doc true (some f40Schema)).1 true (some f40Schema)).2 =
+      [⟨"ENUM_CASEFOLD", "a".toList, "A".toList, .repair, true, false⟩,
+       ⟨"ENUM_CASEFOLD", "A".toList, "a".toList, .repair, true, false⟩] := by decide
+
+/-- … and the witness is inside the class: two ENUMs with different single matches. -/
+theorem C11_F40_in_class : ¬ DocNoCycle asciiEnv f40Schema f40Doc.leaves := by
+  intro h
+  have := h "BOTH".toList "A".toList (by simp [f40Doc, Doc.leaves, Node.leavesList, Node.leaves]) ["A".toList, "B".toList] ["a".toList, "b".toList] "A".toList "a".toList
+    (by decide) (by decide) (by decide) (by decide)
+  exact absurd this (by decide)
+
+/-! ## the entry points call repair once, under their guard, and copy the log -/
+
+open Tools in
+/-- `octave_validate(fix=true)`: the document handed to `emit` and the copied log are exactly
+`repair(parsed doc)`; with fix=false the parsed document reaches `emit` untouched and nothing is
+logged.  (`validateToolProg` is regenerated from mcp/validate.py.) -/
+theorem C11_tools_validate (rep : Doc → Doc × List Entry) (f : Tools.Flags) (d : Doc) :
+    Tools.run rep f Tools.validateToolProg d = if f.fix then rep d else (d, []) := by
+  cases hf : f.fix <;>
+    simp [Tools.run, Tools.exec, Tools.step, Tools.validateToolProg, Tools.stageOf, Tools.readOnlyCallees,
+      Gen.validateDocOps, Tools.guardHolds, hf]
+
+/-- `octave_write(lenient=true, schema=…)`: repair runs once iff lenient ∧ schema definition found ∧
+validation errors exist. -/
+theorem C11_tools_write (rep : Doc → Doc × List Entry) (f : Tools.Flags) (d : Doc) :
+    Tools.run rep f Tools.writeToolProg d =
+      if f.lenient && f.schemaDefinition && f.validationErrors then rep d else (d, []) := by
+  cases h1 : f.lenient <;> cases h2 : f.schemaDefinition <;> cases h3 : f.validationErrors <;>
+    simp [Tools.run, Tools.exec, Tools.step, Tools.writeToolProg, Tools.siteProg, Gen.repairSites, Tools.guardHolds, h1, h2, h3]
+
+/-- `octave validate --fix`: repair runs once iff --fix ∧ validation errors exist. -/
+theorem C11_tools_cli (rep : Doc → Doc × List Entry) (f : Tools.Flags) (d : Doc) :
+    Tools.run rep f Tools.cliValidateProg d = if f.fix && f.validationErrors then rep d else (d, []) := by
+  cases h1 : f.fix <;> cases h3 : f.validationErrors <;>
+    simp [Tools.run, Tools.exec, Tools.step, Tools.cliValidateProg, Tools.siteProg, Gen.repairSites, Tools.guardHolds, h1, h3]
+
+/-! ## table facts (regenerated from the source on every run) -/
+
+/-- rule ids, tiers and flags of every `repair_log.add` in repair.py are the ones the model logs. -/
+theorem gen_repair_rules : Gen.repairLogAdds =
+    [("_attempt_enum_casefold", "ENUM_CASEFOLD", "REPAIR", true, false, "value", "canonical"),
+     ("_attempt_type_coercion", "TYPE_COERCION", "REPAIR", true, false, "value", "str(coerced)")] := by rfl
+
+theorem gen_repair_tiers : Gen.repairTiers =
+    [("NORMALIZATION", "NORMALIZATION"), ("REPAIR", "REPAIR"), ("FORBIDDEN", "FORBIDDEN")] := by decide
+
+/-- the coercion is for `expected_type == "NUMBER"` only and swallows exactly ValueError/OverflowError. -/
+theorem gen_coercion_type : Gen.coercionTypeTests = [("NotEq", ["NUMBER"])] := by decide
+theorem gen_coercion_caught : Gen.coercionCaught = ["ValueError", "OverflowError"] := by decide
+
+/-- `TypeConstraint`'s table is the one `Constraint.evalType` transcribes. -/
+theorem gen_type_map : Gen.typeMap =
+    [("STRING", ["str"]), ("NUMBER", ["int", "float"]), ("BOOLEAN", ["bool"]), ("LIST", ["list"])] := by decide
+
+/-- every call of `repair()` passes the parsed `doc`, `fix=True`, the file-based schema definition;
+the MCP tools read the returned log, the CLI does not (known finding F41). -/
+theorem gen_repair_sites : Gen.repairSites.map (fun s => (s.1, s.2.2.1, s.2.2.2.1, s.2.2.2.2.1)) =
+    [("mcp/validate.py", "True", "doc", "schema_definition"), ("mcp/write.py", "True", "doc", "schema_definition"),
+     ("cli/main.py", "True", "doc", "schema_definition")] := by decide
+
+theorem gen_repair_sites_guarded :
+    (Gen.repairSites.map fun s => (s.1, s.2.1.contains "fix" || s.2.1.contains "lenient")) =
+    [("mcp/validate.py", true), ("mcp/write.py", true), ("cli/main.py", true)] := by decide
+
+theorem gen_tools_copy_log : (Gen.repairSites.filter (fun s => s.1 ≠ "cli/main.py")).all (fun s => s.2.2.2.2.2) = true := by decide
+
+/-! ## non-vacuity: a document of depth 3 with both kinds of repair, a two-step chain, a refused
+overflow, an untouched zone and an untouched nested occurrence of a non-schema key -/
+
+def exSchema : Schema := { name := "S".toList, fields := [
+  ("STATUS".toList, ⟨some ⟨some ⟨[.req, .enum ["ACTIVE".toList, "DONE".toList]], 0⟩, none⟩⟩),
+  ("COUNT".toList, ⟨some ⟨some ⟨[.opt, .type "NUMBER".toList], 0⟩, none⟩⟩),
+  ("NE".toList, ⟨some ⟨some ⟨[.opt, .enum ["1E5".toList, "2".toList], .type "NUMBER".toList], 0⟩, none⟩⟩)] }
+
+def exDoc : Doc := { name := "DOC".toList, sections := [
+  .block {} "S".toList none [
+    .assign {} "STATUS".toList (.str "active".toList), .assign {} "COUNT".toList (.str " 4_2 ".toList),
+    .block {} "NEST".toList (some "SELF".toList) [
+      .assign {} "NE".toList (.str "1e5".toList), .assign {} "COUNT".toList (.str "1e309".toList),
+      .assign {} "COUNT".toList .null, .assign {} "OTHER".toList (.str "active".toList)]],
+  .sect {} "1".toList "SEC".toList none [.assign {} "STATUS".toList (.zone "active".toList none "```".toList)]] }
+
+example : (repair asciiEnv exDoc true (some exSchema)).2 =
+  [⟨"ENUM_CASEFOLD", "active".toList, "ACTIVE".toList, .repair, true, false⟩,
+   ⟨"TYPE_COERCION", " 4_2 ".toList, "42".toList, .repair, true, false⟩,
+   ⟨"ENUM_CASEFOLD", "1e5".toList, "1E5".toList, .repair, true, false⟩,
+   ⟨"TYPE_COERCION", "1E5".toList, "100000.0".toList, .repair, true, false⟩] := by decide
+
+example : (repair asciiEnv exDoc false (some exSchema)).2 = [] := by decide
+example : (repair asciiEnv exDoc true (some exSchema)).1.skeleton.length = 2 := by decide
+/-- hypotheses of `C11_idem_partial` are satisfiable on a non-trivial document. -/
+example : (repair asciiEnv (repair asciiEnv exDoc true (some exSchema)).1 true (some exSchema)).2 = [] := by decide
+/-- an instance of `Step` (hypotheses of `C11_satisfies`). -/
+example : Step asciiEnv (chainOf exSchema "STATUS".toList) (.enum ["ACTIVE".toList, "DONE".toList])
+    (.str "active".toList) (.str "ACTIVE".toList) ⟨"ENUM_CASEFOLD", "active".toList, "ACTIVE".toList, .repair, true, false⟩ :=
+  Step.casefold _ _ _ (by decide) (by decide) (by decide) (by decide) (by decide)
+/-- hypothesis of `C11_forbidden_enum`: an ambiguous value. -/
+example : (ciMatches asciiEnv ["Ab".toList, "AB".toList, "c".toList] "ab".toList).length ≠ 1 := by decide
+/-- hypothesis of `C11_forbidden_nonfinite`: overflow. -/
+example : Numeral.pyFloat asciiEnv "1e309".toList = some ⟨"inf".toList, false⟩ := by decide
+
 end Octave.C11
